@@ -12,8 +12,9 @@ MATCHERS = {}
 def regen_leaves():
     """CmGen/Leaves.lean: the numeric functions and constants of the source as they read now (the `source_*`
     theorems of CmProps/C01tie.lean identify them with the model)"""
-    from translate import leaves
+    from translate import leaves, optimiser
     leaves.generate()
+    optimiser.generate()
 _CERT = {}
 RAT = {3.0: (3, 1), 4.5: (9, 2), 7.0: (7, 1)}
 
@@ -90,6 +91,8 @@ def check(run):
     run.proof = proof_status("C01", regenerate=regen_leaves)
     from translate import leaves as _leaves
     run.extra["source_translation"] = _leaves.summary()
+    from translate import optimiser as _opt
+    run.extra["source_translation_optimiser"] = _opt.summary()
     q = run.quick()
     n_caf = 500 if q else 12000
     n_api = 700 if q else 20000
